@@ -584,6 +584,15 @@ var verifC16ClassIDs = []string{
 	verifC16KListEmpty, verifC16KPackDrop, verifC16KStalePR, verifC16KRemoveGap,
 }
 
+// verifC16ListingFailsOnEmptyFile probes the tree under test: does Refs()
+// fail when a loose reference file is empty?
+func verifC16ListingFailsOnEmptyFile() bool {
+	w, _ := verifC16Build(verifC16StAbsent)
+	w.base.Put(string(verifC16RefA), nil)
+	_, err := New(w.view(2)).Refs()
+	return err != nil
+}
+
 func verifC16Has(cls []string, id string) bool {
 	for _, c := range cls {
 		if c == id {
@@ -659,15 +668,27 @@ func verifC16Classes(w *verifC16World, st, mop, iop, k int, mops []string) (cls 
 	if iop == verifC16OpRef && empty && looseAtStart {
 		cls = append(cls, verifC16KRefEmpty)
 	}
-	if (iop == verifC16OpRefs || iop == verifC16OpPack) && empty {
-		cls = append(cls, verifC16KListEmpty)
+	// Refs and PackRefs fail as a whole on an empty loose file. (If the tree
+	// under test skips such files instead - proposed fix 2 - what remains is
+	// the previous class for Refs: the reference is listed with its packed
+	// value or not at all.)
+	if empty && (iop == verifC16OpRefs || iop == verifC16OpPack) {
+		if verifC16ListingFailsOnEmptyFile() {
+			cls = append(cls, verifC16KListEmpty)
+		} else if iop == verifC16OpRefs && looseAtStart {
+			cls = append(cls, verifC16KRefEmpty)
+		}
 	}
 	// PackRefs removes a loose file whose update it has not seen.
 	if mop == verifC16OpPack && looseAtStart && (iop == verifC16OpCAS || iop == verifC16OpSet || iop == verifC16OpSetSym) &&
 		k > verifC16Index(mops, "read") && k <= verifC16Index(mops, "remove") {
 		cls = append(cls, verifC16KPackDrop)
 	}
-	if mop == verifC16OpCAS && iop == verifC16OpPack && looseAtStart && k >= 1 && k <= verifC16Index(mops, "truncate") {
+	// ... or that a writer has open and is about to rewrite (SetRef without old
+	// value empties the file at open, so PackRefs fails instead: previous
+	// class; once it truncates under the lock it belongs here too).
+	if (mop == verifC16OpCAS || plainSet) && iop == verifC16OpPack && looseAtStart && !empty &&
+		k > verifC16Index(mops, "open") && k <= verifC16Index(mops, "truncate") {
 		cls = append(cls, verifC16KPackDrop)
 	}
 	// packed-refs replaced between open and the first Stat of
